@@ -3,7 +3,14 @@
      E <id> <ml:0|1> <hex>                                  frame_extent      -> <id> OK <n> | <id> NONE
      R <id> <dflags> <hex> <s|c> <cap> <limit>              sread / hread     -> <id> DONE <pos> <a,b,...> | <id> BEYOND <pos> <n>
                                                                                 | <id> SHORT <pos> | <id> FAIL <name> | <id> FUEL
-         dflags: "-" or comma list of ml | nock | mw=<maxWindowSize> | bm=<maxBlockSize> *)
+         dflags: "-" or comma list of ml | nock | mw=<maxWindowSize> | bm=<maxBlockSize>
+     W <id> <inputhex> <calls> <outhex> <frames>            the public entry points of streaming compression (C10Api.v) around
+         the tape block compressor (the block sizes of the real output, as in the C02 driver):
+         calls  = kind:offered:cap:dir:wlog:maxblock:flags:ck;...   kind c (compressStream2) | s (compressStream) | f (flushStream) |
+                  e (endStream) | R (reset session); flags = "-" or '+'-joined si | so | ml (the REQUESTED parameters at that call)
+         frames = hs/ck/cs:rs,cs:rs,...;hs/ck/...
+         -> <id> OK view:consumed:produced:ret:stage:inBuffPos:inToCompress:inBuffTarget:outContent:outFlushed:frameEnded:held:blockSize:
+                    inBuffSize:outBuffSize:hint:apos:asize:anull;... bad=<0|1> *)
 open C10model
 
 let rec pos_of_int i = if i = 1 then XH else if i land 1 = 0 then XO (pos_of_int (i lsr 1)) else XI (pos_of_int (i lsr 1))
@@ -44,6 +51,93 @@ let parse_dflags s =
     | _ -> ()) (split ',' s);
   !p
 
+
+let string_of_n n =
+  match n with
+  | N0 -> "0"
+  | Npos p ->
+    let rec bits p acc = match p with XH -> true :: acc | XO q -> bits q (false :: acc) | XI q -> bits q (true :: acc) in
+    let bl = bits p [] in
+    let digits = ref [0] in
+    List.iter (fun b ->
+      let carry = ref (if b then 1 else 0) in
+      digits := List.map (fun d -> let v = 2 * d + !carry in carry := v / 10; v mod 10) !digits;
+      if !carry > 0 then digits := !digits @ [!carry]) bl;
+    String.concat "" (List.rev_map string_of_int !digits)
+let string_of_z = function Z0 -> "0" | Zpos p -> string_of_n (Npos p) | Zneg p -> "-" ^ string_of_n (Npos p)
+let int_of_z = function Z0 -> 0 | Zpos p -> int_of_pos p | Zneg p -> - (int_of_pos p)
+let arr_of_hex s =
+  if s = "-" then [||] else Array.init (String.length s / 2) (fun i -> byte_tab.(16 * hexval s.[2*i] + hexval s.[2*i+1]))
+let slice (a : n array) pos len =
+  let len = max 0 (min len (Array.length a - pos)) in
+  let rec go i acc = if i < pos then acc else go (i - 1) (a.(i) :: acc) in
+  go (pos + len - 1) []
+let kerr_name = function
+  | KdstSize_tooSmall -> "dstSize_tooSmall" | Kstability -> "stabilityCondition_notRespected" | Kinit_missing -> "init_missing"
+  | Kimpossible s -> "IMPOSSIBLE_" ^ string_of_n s
+let aerr_name = function AK e -> kerr_name e | AStability -> "stabilityCondition_notRespected"
+let kstage_i = function KInit -> 0 | KLoad -> 1 | KFlush -> 2
+let b2i b = if b then 1 else 0
+
+let parse_frames s =
+  List.map (fun fr ->
+    match String.split_on_char '/' fr with
+    | [hs; ck; bl] ->
+      { tf_hsize = n_of_string hs; tf_cksum = (ck = "1");
+        tf_blocks = List.map (fun b -> match String.split_on_char ':' b with
+                                       | [c; r] -> (n_of_string c, n_of_string r) | _ -> failwith "bad block") (split ',' bl) }
+    | _ -> failwith "bad frame") (split ';' s)
+
+(* the input is one array X; the model reads X through tk/dr, so it gets the whole array as a list once *)
+let cmd_w id ihex calls ohex frames =
+  let xarr = arr_of_hex ihex in
+  let x = slice xarr 0 (Array.length xarr) in
+  let tape0 = { t_bytes = slice (arr_of_hex ohex) 0 max_int; t_hsize = N0; t_cksum = false; t_blocks = []; t_frames = parse_frames frames;
+                t_bad = false; t_chunks = [] } in
+  let a = ref (ta_new tape0) and stop = ref false in
+  let rec_ = Buffer.create 4096 in
+  List.iter (fun c ->
+    if not !stop then begin
+      match String.split_on_char ':' c with
+      | [kind; off; cp; d; wl; mb; fl; ck] ->
+        let fls = String.split_on_char '+' fl in
+        let p = { kp_stableIn = List.mem "si" fls; kp_stableOut = List.mem "so" fls; kp_magicless = List.mem "ml" fls } in
+        let fc = { fc_windowLog = n_of_string wl; fc_maxBlock = n_of_string mb; fc_pledge = n_of_string "18446744073709551615" } in
+        let n = n_of_string off and cap = n_of_string cp in
+        let dir = (match d with "0" -> DirContinue | "1" -> DirFlush | _ -> DirEnd) in
+        let view = ta_wview (!a).a_k in
+        if kind = "R" then begin
+          a := ta_reset !a;
+          let kk = (!a).a_k in
+          Buffer.add_string rec_ (Printf.sprintf "%d:0:0:0:%d:%s:%s:%s:%s:%s:%d:%d:%s:%s:%s:%s:%s:%s:%d;" (b2i view)
+            (kstage_i kk.k_stage) (string_of_n kk.k_inBuffPos) (string_of_n kk.k_inToCompress) (string_of_n kk.k_inBuffTarget)
+            (string_of_n kk.k_outContent) (string_of_n kk.k_outFlushed) (b2i kk.k_frameEnded) (List.length kk.k_held)
+            (string_of_n kk.k_blockSize) (string_of_n kk.k_inBuffSize) (string_of_n kk.k_outBuffSize) (string_of_n (ta_hint kk))
+            (string_of_n (!a).a_pos) (string_of_n (!a).a_size) (b2i (!a).a_null))
+        end else begin
+          let o = (match kind with
+                   | "c" -> ta_call p fc x !a n cap dir
+                   | "s" -> ta_stream p fc x !a n cap
+                   | "f" -> ta_flushStream p fc x !a cap
+                   | _ -> ta_endStream p fc x !a cap (n_of_string ck)) in
+          let kk = o.ao_a.a_k in
+          let ret = (match o.ao_ret, o.ao_err with
+                     | Some r, _ -> string_of_n r
+                     | None, Some e -> stop := true; "E" ^ aerr_name e
+                     | None, None -> stop := true; "E?") in
+          Buffer.add_string rec_ (Printf.sprintf "%d:%s:%d:%s:%d:%s:%s:%s:%s:%s:%d:%d:%s:%s:%s:%s:%s:%s:%d;" (b2i view)
+            (string_of_z o.ao_consumed) (List.length o.ao_out) ret (kstage_i kk.k_stage) (string_of_n kk.k_inBuffPos)
+            (string_of_n kk.k_inToCompress) (string_of_n kk.k_inBuffTarget) (string_of_n kk.k_outContent) (string_of_n kk.k_outFlushed)
+            (b2i kk.k_frameEnded) (List.length kk.k_held) (string_of_n kk.k_blockSize) (string_of_n kk.k_inBuffSize)
+            (string_of_n kk.k_outBuffSize) (string_of_n (ta_hint kk)) (string_of_n o.ao_a.a_pos) (string_of_n o.ao_a.a_size)
+            (b2i o.ao_a.a_null));
+          a := o.ao_a
+        end
+      | _ -> ()
+    end) (split ';' calls);
+  let t = (!a).a_k.k_cs in
+  Printf.printf "%s OK %s bad=%d\n" id (if Buffer.length rec_ = 0 then "-" else Buffer.contents rec_) (b2i t.t_bad)
+
 let print_rres id = function
   | RDone (p, a) -> Printf.printf "%s DONE %d %s\n" id (int_of_n p) (String.concat "," (List.map (fun x -> string_of_int (int_of_n x)) a))
   | RBeyond (p, n) -> Printf.printf "%s BEYOND %d %d\n" id (int_of_n p) (int_of_n n)
@@ -66,6 +160,7 @@ let () =
                    let src = list_of_hex t.(3) in
                    if t.(4) = "s" then print_rres t.(1) (rsread p src (n_of_string t.(5)) (n_of_string t.(6)))
                    else print_rres t.(1) (rhread p src (n_of_string t.(6)))
+          | "W" -> cmd_w t.(1) t.(2) t.(3) t.(4) (if Array.length t > 5 then t.(5) else "-")
           | _ -> Printf.printf "? BADCMD\n"
         end
       with e -> Printf.printf "%s CRASH %s\n" (if Array.length t > 1 then t.(1) else "?") (Printexc.to_string e));
